@@ -100,7 +100,9 @@ func stepsWorker(req N) (resp N) {
 		// a new activation: a deeper frame, or execution restarting at instruction 0 in the same frame slot
 		// (a callee that failed or returned, then another call from Go: try handlers, deferred calls, callbacks)
 		// unless the previous instruction there was a backward jump to 0 (a loop at the start of a body)
-		restart := fp == lastFp && ip == 0 && !(lastOp == op.JumpBackward && lastIP-lastA == 0)
+		// a frame slot at or below the last one that starts at instruction 0 is never a return (a return resumes
+		// after a call instruction): a failed callee was unwound and Go code called another function there
+		restart := ip == 0 && (fp < lastFp || (fp == lastFp && !(lastOp == op.JumpBackward && lastIP-lastA == 0)))
 		if fp > lastFp || restart {
 			act++
 			actOf[fp] = act
